@@ -78,6 +78,18 @@ STRENGTHENED.update({
     "C13-k": "smoother gufuncs get nodata values the int16 data cannot hold whose truncation (x.5) or wrap-around (x+65536) is a valid cell's value (a third of the cases)",
     "C15-k": "series class 'narrow band on a high level' (a few counts of variation at |level| 12000..32000) in the reference sub-check and pure level shifts of 15000..30000 in the affine relation",
     "C20-l": "sub-check 'joint': two lazy whitint results of one dask cube under two labelings with equally many periods evaluated in one dask.compute"})
+STRENGTHENED.update({
+    "C01-m": "a quarter of C01's cases are preceded by a call that hands the core the SAME weight array with a NaN / inf observation at a weighted cell (result ignored): the caller's arrays must be unchanged and the real call exact; y and w must come back unmodified from every call",
+    "C03-m": "sub-check 'sg_reuse': one DataArray and one sgrid object across several whits(sg=) calls, the sgrid overwritten in place in between (oracle: brand-new objects with the same content)",
+    "C04-m": "sub-check 'blocks' (harness/lazyblocks.py): whitsvc on 16 equally shaped dask blocks evaluated by 4-16 threads at once, three times, against the in-memory result",
+    "C07-m": "half of the accessor cases are preceded by an spi() call with the same window arguments on another cube whose time axis has the same first step, last step and length but other steps in between",
+    "C10-m": "sub-check 'blocks': mktrend on 4 equally shaped dask blocks of 1200 series x 110 steps evaluated by 8-16 threads at once, three times, against the in-memory result",
+    "C14-m": "entry points that are no longer dispatchers themselves (a Python wrapper around compiled helpers) are still exercised, helpers without a generator are counted instead of stopping the check, and sub-check 'zone_edit' runs do_mean repeatedly on ONE zone raster object that is merged / masked in place in between, under bounds checking",
+    "C16-m": "sub-check 'blocks': zonal.mean on ten equally shaped time-step blocks of 1.44 million pixels evaluated by 8-16 threads at once, three times, against the in-memory result",
+    "C18-n": "croo on long records (130..1000 steps, current run of 127..1000 members) stored in uint8 / int8 / int16 / int32 / int64 cubes, rotated / reversed stored order",
+    "C20-m": "sub-check 'buffers': the caller's template / label arrays refilled in place between whitint calls (oracle: brand-new arrays of the same content); results handed out earlier re-compared",
+    "C06-n": "NOT yet caught: the relative stop test of the envelope iteration shows in about 0.4 % of low-amplitude series shifted by +-9000 (3 of 800 in the author's demo) - too rare for the quick budget of C06's offset relation; see DESIGN section 12, round 7",
+    "C13-n": "NOT yet caught: compiled float32 .sum() (sequential) vs NumPy's pairwise summation differ by 1e-4 .. 1e-2 only for windows of 1e4 .. 1e6 float32 cells; C13's large inputs are integer-valued (exact in both) - see DESIGN section 12, round 7"})
 FIRST = {k: "missed" for k in STRENGTHENED}  # result of the first evaluation, before the strengthening the seed prompted
 SUPERSEDED = {
     "C12-j": "superseded: confirmed and caught on hdc-algo 2da843a; it rewrote the dask key of zonal.mean, the line that the repair of D17 (0318712) now owns, so the patch no longer applies to the repaired tree; at its own base commit it is caught by C12's joint sub-check",
@@ -90,7 +102,7 @@ REBASED = {
 out_root = "/verif/seeded"
 os.makedirs(out_root, exist_ok=True)
 rows = []
-for root, variants in (("/tmp/seeds", ("a", "b")), ("/tmp/seeds2", ("c", "d")), ("/tmp/seeds3", ("e", "f")), ("/tmp/seeds4", ("g", "h")), ("/tmp/seeds5", ("i", "j")), ("/tmp/seeds6", ("k", "l"))):
+for root, variants in (("/tmp/seeds", ("a", "b")), ("/tmp/seeds2", ("c", "d")), ("/tmp/seeds3", ("e", "f")), ("/tmp/seeds4", ("g", "h")), ("/tmp/seeds5", ("i", "j")), ("/tmp/seeds6", ("k", "l")), ("/tmp/seeds7", ("m", "n"))):
   if not os.path.isdir(root):
     continue
   for pid in sorted(os.listdir(root)):
@@ -122,7 +134,7 @@ for root, variants in (("/tmp/seeds", ("a", "b")), ("/tmp/seeds2", ("c", "d")), 
         m = {"id": key, "property": pid, "breaks": meta.get("summary"), "needs_to_manifest": meta.get("needs_to_manifest"),
              "files_changed": meta.get("files_changed"), "author": "independent sub-agent given only the property text and a scratch worktree",
              "author_verification": meta.get("verified"),
-             "confirmed_by_me": {"base_commit": "hdc-algo HEAD at evaluation time (pinned tree + fix: commits; 2de2409 for round 1 a/b, 26e16c3 for round 2 c/d, e8a493c for rounds 3 e/f and 4 g/h, 2da843a for round 5 i/j, 0318712 for round 6 k/l)", "patch_applies": True,
+             "confirmed_by_me": {"base_commit": "hdc-algo HEAD at evaluation time (pinned tree + fix: commits; 2de2409 for round 1 a/b, 26e16c3 for round 2 c/d, e8a493c for rounds 3 e/f and 4 g/h, 2da843a for round 5 i/j, 0318712 for rounds 6 k/l and 7 m/n)", "patch_applies": True,
                                  "existing_tests_with_patch": tests, "demo_exit_code_clean_tree": 0, "demo_exit_code_patched_tree": int(ev["demo_exit_patched"]),
                                  "how": "tools/seed_eval.sh %s %s (scratch copy of /repo HEAD, git apply, pytest, demo on both trees, ./check %s --tier quick with HDC_REPO=<scratch>)" % (pid, v, pid)},
              "check_result_first_evaluation": FIRST.get(key, "caught"), "check_result_now": ev["check"],
